@@ -20,9 +20,9 @@ ALGOS = ["omopso", "smpso", "psoga"]
 
 
 def cases(ctx):
-    for i in range(ctx.pick(300, 6000)):
+    for i in range(ctx.pick(900, 48000)):
         yield "direct", {"seed": ctx.subseed("d", i), "algo": ALGOS[i % 3]}
-    for i in range(ctx.pick(18, 300)):
+    for i in range(ctx.pick(54, 2400)):
         yield "insitu", {"seed": ctx.subseed("is", i), "algo": ALGOS[i % 3]}
 
 
